@@ -21,6 +21,8 @@ import (
 	"time"
 
 	"verif/build"
+	"verif/instr"
+	"verif/selftestgen"
 )
 
 type propConf struct {
@@ -124,7 +126,13 @@ func main() {
 	workers := flag.Int("workers", 16, "worker processes")
 	runsFlag := flag.Int("runs", 0, "override the number of runs")
 	keep := flag.Bool("keep", false, "keep the scratch directory")
+	selftest := flag.Int("selftest", 0, "differential self-test of instrumenter + runtime: N generated programs, native vs simulated")
+	stSeeds := flag.Int("selftest-seeds", 40, "schedules per generated program in -selftest")
+	stGen := flag.Int64("selftest-gen", 1, "generator seed for -selftest")
 	flag.Parse()
+	if *selftest > 0 {
+		os.Exit(doSelfTest(*verif, *selftest, *stSeeds, *stGen, *keep))
+	}
 
 	if *prepare != "" {
 		res, err := build.Prepare(*repo, *verif, *prepare, flag.Args(), os.Stderr)
@@ -157,6 +165,85 @@ func main() {
 		die(2, "unknown or unclaimed property %q", *prop)
 	}
 	os.Exit(doCheck(*repo, *verif, *prop, pc, *tier, seed, *workers, *runsFlag, *keep))
+}
+
+// doSelfTest generates random schedule-confluent concurrent programs, runs them natively and,
+// after instrumentation, under the simulator with many seeded schedules, and compares the
+// outcomes. Exit 0 = all agree, 1 = a disagreement (a bug in instr or simrt), 2 = trouble.
+func doSelfTest(verif string, n, seeds int, genSeed int64, keep bool) int {
+	scratch := scratchDir()
+	if !keep {
+		defer os.RemoveAll(scratch)
+	}
+	orig := filepath.Join(scratch, "orig")
+	inst := filepath.Join(scratch, "inst")
+	for _, d := range []string{orig, inst} {
+		if err := selftestgen.Generate(filepath.Join(d, "selftest"), n, genSeed); err != nil {
+			die(2, "%v", err)
+		}
+		os.WriteFile(filepath.Join(d, "go.mod"), []byte("module selftestmod\n\ngo 1.19\n"), 0o644)
+	}
+	os.MkdirAll(filepath.Join(orig, "cmd", "native"), 0o755)
+	os.WriteFile(filepath.Join(orig, "cmd", "native", "main.go"), []byte(selftestgen.NativeMain), 0o644)
+	rep, err := instr.Run(inst)
+	if err != nil {
+		die(2, "instrument: %v", err)
+	}
+	if len(rep.Unsupported) > 0 {
+		die(2, "instrumenter met constructs it does not model: %v", rep.Unsupported)
+	}
+	if err := build.CopySimrt(verif, inst, rep); err != nil {
+		die(2, "%v", err)
+	}
+	os.MkdirAll(filepath.Join(inst, "cmd", "simrun"), 0o755)
+	os.WriteFile(filepath.Join(inst, "cmd", "simrun", "main.go"), []byte(selftestgen.SimMain), 0o644)
+	run := func(dir string, args ...string) (string, error) {
+		c := exec.Command("go", args...)
+		c.Dir = dir
+		c.Env = build.Env()
+		out, err := c.CombinedOutput()
+		return string(out), err
+	}
+	nat, err := run(orig, "run", "./cmd/native")
+	if err != nil {
+		fmt.Fprintf(os.Stderr, "vcheck: native run failed: %v\n%s\n", err, nat)
+		return 2
+	}
+	want := map[string]string{}
+	for _, l := range strings.Split(strings.TrimSpace(nat), "\n") {
+		if i := strings.IndexByte(l, ' '); i > 0 {
+			want[l[:i]] = l[i+1:]
+		}
+	}
+	if out, err := run(inst, "build", "-tags", "verif", "-o", "simrun", "./cmd/simrun"); err != nil {
+		fmt.Fprintf(os.Stderr, "vcheck: instrumented self-test programs do not build:\n%s\n", out)
+		return 1
+	}
+	c := exec.Command(filepath.Join(inst, "simrun"), "-seeds", strconv.Itoa(seeds))
+	c.Env = append(os.Environ(), "GOMAXPROCS=1")
+	simOut, simErr := c.CombinedOutput()
+	bad, runs := 0, 0
+	for _, l := range strings.Split(strings.TrimSpace(string(simOut)), "\n") {
+		i := strings.IndexByte(l, ' ')
+		if i <= 0 {
+			continue
+		}
+		runs++
+		if got := l[i+1:]; got != want[l[:i]] {
+			bad++
+			if bad <= 10 {
+				fmt.Printf("selftest: program %s: simulated %q, native %q\n", l[:i], got, want[l[:i]])
+			}
+		}
+	}
+	fmt.Printf("selftest: %d programs, %d simulated runs, %d disagreements (instrumentation: %v)\n", n, runs, bad, rep.Counts)
+	if bad > 0 || simErr != nil || runs != n*seeds {
+		if simErr != nil {
+			fmt.Fprintf(os.Stderr, "vcheck: simulated run: %v\n", simErr)
+		}
+		return 1
+	}
+	return 0
 }
 
 func treeID(repo string) string {
@@ -335,6 +422,21 @@ func doCheck(repo, verif, prop string, pc propConf, tier string, seed uint64, wo
 		return 2
 	}
 	bin := res.Bins[pc.Harness]
+	instrValidated := false
+	if tier == "thorough" {
+		// instrumenter validation: the repository's own tests must pass on the instrumented
+		// copy (simulator inactive) - instrumentation must not change sequential behaviour
+		tc := exec.Command("go", "test", "-tags", "verif", "-vet=off", "-count=1", "./openflow13/", "./protocol/")
+		tc.Dir = scratch
+		tc.Env = build.Env()
+		if out, err := tc.CombinedOutput(); err != nil {
+			fmt.Fprintf(os.Stderr, "vcheck: the repository's tests fail on the instrumented copy (machinery trouble, or the tree's own tests fail):\n%s\n", out)
+			cleanup()
+			return 2
+		}
+		instrValidated = true
+		fmt.Println("vcheck: repository tests pass on the instrumented copy")
+	}
 	runs, secs := pc.QuickRuns, pc.QuickSecs
 	if tier == "thorough" {
 		runs, secs = pc.ThorRuns, pc.ThorSecs
@@ -595,36 +697,52 @@ func doCheck(repo, verif, prop string, pc propConf, tier string, seed uint64, wo
 		distinct = int64(tot.Nontrivial)
 	}
 	cov := map[string]any{
-		"evaluations":             tot.Runs,
-		"distinct_nontrivial":     distinct,
-		"rule":                    pc.Rule,
-		"samples":                 tot.Samples,
-		"nontrivial_runs":         tot.Nontrivial,
-		"scheduler_steps":         tot.Steps,
-		"simulated_time_s":        float64(tot.SimTimeNS) / 1e9,
-		"runs_per_hour":           int64(float64(tot.Runs) / maxNonZero(maxWall) * 3600),
-		"seeds_per_hour":          int64(float64(tot.Runs) / maxNonZero(maxWall) * 3600),
-		"worker_processes":        workers,
-		"faults_fired":            tot.Faults,
-		"probes":                  tot.Probes,
-		"strategies":              tot.Strategies,
-		"config_classes":          tot.Classes,
-		"end_kinds":               tot.EndKinds,
-		"maxima":                  tot.Maxima,
-		"abstract_states":         tot.States.estimate(),
-		"abstract_transitions":    tot.Transitions.estimate(),
-		"distinct_traces":         tot.Traces.estimate(),
-		"distinct_measure":        measureOf(pc, "abstract state = (len of pool.Empty, pool.Full, Inbound, Outbound, Error, Shutdown, parserShutdown; multiset of (task class, gate kind, gate site) over all tasks; failure seen); transitions = (state, state', class of released task); counts above 16384 are k-minimum-values estimates"),
-		"determinism_selfcheck":   map[string]any{"runs_compared": detChecked, "processes": 2, "gomaxprocs": []int{4, 1}, "mismatches": 0},
-		"components":              componentsOf(pc),
-		"instrumentation":         res.Report.Counts,
-		"known_findings_observed": knownObserved,
-		"violation_classes":       tot.ViolCounts,
-		"replays":                 reported,
-		"tree":                    treeID(repo),
+		"evaluations":           tot.Runs,
+		"distinct_nontrivial":   distinct,
+		"rule":                  pc.Rule,
+		"samples":               tot.Samples,
+		"nontrivial_runs":       tot.Nontrivial,
+		"scheduler_steps":       tot.Steps,
+		"simulated_time_s":      float64(tot.SimTimeNS) / 1e9,
+		"runs_per_hour":         int64(float64(tot.Runs) / maxNonZero(maxWall) * 3600),
+		"seeds_per_hour":        int64(float64(tot.Runs) / maxNonZero(maxWall) * 3600),
+		"worker_processes":      workers,
+		"faults_fired":          tot.Faults,
+		"probes":                tot.Probes,
+		"strategies":            tot.Strategies,
+		"config_classes":        tot.Classes,
+		"end_kinds":             tot.EndKinds,
+		"maxima":                tot.Maxima,
+		"abstract_states":       tot.States.estimate(),
+		"abstract_transitions":  tot.Transitions.estimate(),
+		"distinct_traces":       tot.Traces.estimate(),
+		"distinct_measure":      measureOf(pc, "abstract state = (len of pool.Empty, pool.Full, Inbound, Outbound, Error, Shutdown, parserShutdown; multiset of (task class, gate kind, gate site) over all tasks; failure seen); transitions = (state, state', class of released task); counts above 16384 are k-minimum-values estimates"),
+		"determinism_selfcheck": map[string]any{"runs_compared": detChecked, "processes": 2, "gomaxprocs": []int{4, 1}, "mismatches": 0},
+		"components":            componentsOf(pc),
+		"instrumentation":       res.Report.Counts,
+		"instrumenter_validated_by_repository_tests": instrValidated,
+		"known_findings_observed":                    knownObserved,
+		"violation_classes":                          tot.ViolCounts,
+		"replays":                                    reported,
+		"tree":                                       treeID(repo),
 	}
 	if len(tot.SiteHits) > 0 {
-		cov["decoder_entries"] = len(tot.SiteHits)
+		var unreached []string
+		reached := 0
+		for k, n := range tot.SiteHits {
+			if n == 0 {
+				unreached = append(unreached, k)
+			} else {
+				reached++
+			}
+		}
+		sort.Strings(unreached)
+		if pc.Harness == "hstream" {
+			cov["decoders_reached"] = reached
+			cov["unreached_decoders"] = unreached
+		} else {
+			cov["shared_state_sites_exercised"] = reached
+		}
 	}
 	ev := map[string]any{
 		"property_id": prop, "tier": tier, "seed": seed, "level": pc.Level, "coverage": cov,
